@@ -12,6 +12,7 @@ THEOREMS = [
     "Remoc.Wiring.wiring_bijective",
     "Remoc.Wiring.interlock_single_connection",
     "Remoc.Wiring.interlock_pinned_ineffective",
+    "Remoc.Wiring.interlock_failed_send_restores",
     "Remoc.Wiring.unconnectable_is_error",
     "Remoc.Wiring.connInv_step",
 ]
@@ -22,7 +23,9 @@ RULE = ("real values with 0-12 channel halves (mpsc, oneshot, watch sender/recei
         "label that is sent into the channel after the transfer and must come out at exactly its counterpart, and nothing else may "
         "ever come out (receivers are drained after all senders are gone); fault scenarios: receiver endpoint one port short, sender "
         "endpoint one port short, value never received, connection cut - both ends must observe an error (or the halves are handed "
-        "back and work locally), no operation may hang (paused clock). A case is non-trivial if at least 2 halves were exercised or a "
+        "back and work locally), no operation may hang (paused clock); retry scenario for bin / lr halves: a first send containing the "
+        "half that stays fails after serialization (sender endpoint out of ports, or max_item_size) and hands it back, then the OTHER "
+        "half travels in the value - it must be wired to the handed-back counterpart like an ordinary local-remote half. A case is non-trivial if at least 2 halves were exercised or a "
         "fault scenario ran; distinct = distinct (shape, scenario, results) sequence.")
 TRUSTED_BASE = [
     "M_wiring (lean/RemocModel/Base/Wiring.lean): values as lists of halves in serialization order, id-keyed matching, forward hops "
@@ -76,7 +79,7 @@ def run(ctx, replay=None):
         for i in range(parts):
             jobs.append(("gen%d" % i, ["gen", n // parts], ctx.seed * 1000 + i))
     total, nontrivial, hashes, samples = 0, 0, set(), []
-    stats = {"cases": 0, "labels_connected": 0, "labels_unconnectable": 0, "pred_fail": 0, "replay_diff": 0}
+    stats = {"cases": 0, "labels_connected": 0, "labels_unconnectable": 0, "labels_retried_after_failed_send": 0, "pred_fail": 0, "replay_diff": 0}
     dist = {}
     fails, diffs = [], []
     for name, args, seed in jobs:
@@ -108,6 +111,7 @@ def run(ctx, replay=None):
             stats["cases"] += 1
             stats["labels_connected"] += int(m.get("connected", 0))
             stats["labels_unconnectable"] += int(m.get("unconnectable", 0))
+            stats["labels_retried_after_failed_send"] += int(m.get("retried", 0))
             spec, body = cases.get(cname, ([], []))
             if int(m.get("connected", 0)) + int(m.get("unconnectable", 0)) >= 2 or m.get("scenario") != "normal":
                 h = hashlib.sha1(("".join(spec[1:]) + "".join(b for b in body if b.startswith(("xfer", "drain", "value")))).encode()).hexdigest()
